@@ -115,8 +115,9 @@ def check(case):
             return discard("crash-one-side:" + (c1 or c2).bucket)
         return discard("crash:" + c1.bucket)
     try:
-        a = oracle.read_canon(out1, inst_prop)
-        b = oracle.read_canon(out2, inst_prop)
+        a, b = oracle.read_all([out1, out2], inst_prop)
+    except oracle.OneSided as e:
+        return violation(str(e), (), True)
     except oracle.shexc.ShExCError:
         return discard("unparsable-output")
     if "__dup_labels__" in a or "__dup_labels__" in b:
